@@ -12,6 +12,7 @@ let rv_of (x : Sx.t) : rv =
   | "int", [n] -> RInt (z_of_int (Sx.int_of n))
   | "ptr", [p] -> RPtr (opt p)
   | "other", [] -> ROther
+  | "ptrb", [p] -> RPtrB (opt p)
   | _ -> failwith ("rv: " ^ Sx.show x)
 
 let act_of (x : Sx.t) : act =
@@ -92,7 +93,21 @@ let model_result (c : cfg) : Sx.t =
   Sx.L [Sx.A "r"; Sx.L (Sx.A "trace" :: List.map sx_event tr); Sx.L [Sx.A "status"; sx_int (int_of_z s.status)];
         Sx.L (Sx.A "body" :: List.map sx_chunk s.body); Sx.L [Sx.A "escaped"; esc]]
 
+(* with (rot 1) the scripted panic values differ from one request of the case to the next (string, error, struct,
+   string, http.ErrAbortHandler in turn): what one request's panic was must not matter to the next *)
+let rot_set = [1; 2; 4; 6; 5]
+let rot_value (k : int) (v : int) : int =
+  let rec idx i = function [] -> -1 | x :: r -> if x = v then i else idx (i + 1) r in
+  let i = idx 0 rot_set in if i < 0 then v else List.nth rot_set ((i + k) mod 5)
+let rot_handler k = function
+  | HNormal (acts, ret) -> HNormal (List.map (function APanic v -> APanic (nat_of_int (rot_value k (int_of_nat v))) | a -> a) acts, ret)
+  | h -> h
+let rot_cfg (rot : bool) (c : cfg) (k : int) : cfg =
+  if not rot then c else { c with hs = List.map (rot_handler k) c.hs; action = Option.map (rot_handler k) c.action }
 let rec repeat k x = if k <= 0 then [] else x :: repeat (k - 1) x
+let model_results (input : Sx.t) (c : cfg) : Sx.t list =
+  let rot = (match Sx.field_opt "rot" input with Some r -> Sx.args r = [Sx.A "1"] | None -> false) in
+  List.init (max c.reps 0) (fun k -> model_result (rot_cfg rot c k))
 
 let obs_trace r = List.map event_of (Sx.args (Sx.field "trace" r))
 let obs_status r = Sx.int_of (List.hd (Sx.args (Sx.field "status" r)))
@@ -107,7 +122,7 @@ let has_panic = function HNormal (acts, _) -> List.exists (function APanic _ -> 
 (* C03 *)
 let eval_c03 (input : Sx.t) (obs : Sx.t) =
   let c = cfg_of input in
-  let m = repeat c.reps (model_result c) in
+  let m = model_results input c in
   let spec = List.for_all (fun r -> chain_spec_ok c.hs c.action (obs_trace r)) (Sx.args obs) in
   let nexts = List.fold_left (fun a h -> a + count_next h) 0 c.hs in
   let multi = List.exists (fun h -> count_next h >= 2) c.hs in
@@ -119,7 +134,7 @@ let eval_c03 (input : Sx.t) (obs : Sx.t) =
    replaces the table *)
 let eval_c14 (input : Sx.t) (obs : Sx.t) =
   let c = cfg_of input in
-  let m = repeat c.reps (model_result c) in
+  let m = model_results input c in
   let all = c.hs @ (match c.action with Some a -> [a] | None -> []) in
   let custom k = let k = int_of_nat k in (Some (z_of_int (290 + k), [n_of_int 82; n_of_int (48 + k)]), true) in
   let only_maps acts = List.for_all (function AMapRH _ | AWrapRW -> true | _ -> false) acts in
@@ -154,7 +169,7 @@ let eval_c14 (input : Sx.t) (obs : Sx.t) =
    the generator keeps them to <= 1 Next because of known finding F16, which is probed by a corpus case) *)
 let eval_c15 (input : Sx.t) (obs : Sx.t) =
   let c = cfg_of input in
-  let m = repeat c.reps (model_result c) in
+  let m = model_results input c in
   let rec split i = function
     | HRecovery :: _ -> Some i
     | h :: rest -> if has_panic h then None else split (i + 1) rest
@@ -174,7 +189,15 @@ let eval_c15 (input : Sx.t) (obs : Sx.t) =
             | NextCall i when int_of_nat i < r -> List.mem (NextRet i) tr && List.mem (Exit i) tr
             | Enter (i, _, _) when int_of_nat i < r -> List.mem (Exit i) tr
             | _ -> true) tr in
-        let same = (match rs with [] -> true | r0 :: rest -> List.for_all (fun x -> x = r0) rest) in
+        (* later requests are served as if nothing had happened: the same answer again (up to which panic value a
+           page shows, when the scripted values rotate from request to request) *)
+        let rec blank (x : Sx.t) : Sx.t = (match x with
+          | Sx.L [Sx.A "page"; _; d] -> Sx.L [Sx.A "page"; Sx.A "_"; d]
+          | Sx.L [Sx.A "escaped"; _] -> x
+          | Sx.L l -> Sx.L (List.map blank l)
+          | a -> a) in
+        let rs' = List.map blank rs in
+        let same = (match rs' with [] -> true | r0 :: rest -> List.for_all (fun x -> x = r0) rest) in
         (List.for_all ok_one rs && same, "recovery@" ^ string_of_int r)) in
   let panics = List.exists has_panic c.hs || (match c.action with Some a -> has_panic a | None -> false) in
   (m, spec, panics, cls ^ (if panics then ",panics" else ""))
